@@ -245,7 +245,7 @@ Section Exit.
       apply (eliminate_row_EA i j (fst r1)); try assumption.
       now apply (eliminate_col_EA i j s).
     - inversion H; subst s'. apply orb_false_iff in C. destruct C as [C1 C2].
-      apply Nat.ltb_ge in C1, C2. now repeat split.
+      apply Nat.ltb_ge in C1, C2. split; [exact HS|split; assumption].
   Qed.
 
   (* the frame after the pivot (i, i) is finished *)
